@@ -24,7 +24,7 @@ def gen_cases(tier, seed, salt):
         st = structs[int(sub.integers(len(structs)))]
         spec = S.gen_spec(sub, structure=st, fams=["weibull", "lognormal", "lnnf", "expweib", "gengamma", "normal"], allow_hostile=True)
         alpha = float(10 ** sub.uniform(-6, math.log10(0.3)))
-        mode = str(sub.choice(["explicit", "explicit", "explicit", "too-small", "default-limits" if not three else "explicit", "bimodal" if not three else "explicit", "near-miss" if not three else "too-small", "near-miss" if not three else "explicit"]))
+        mode = str(sub.choice(["explicit", "explicit", "explicit", "too-small", "default-limits" if not three else "explicit", "bimodal" if not three else "explicit", "near-miss" if not three else "too-small", "near-miss" if not three else "explicit", "modes-side-by-side" if not three else "explicit", "four-modes" if not three else "explicit"]))
         if mode == "near-miss":
             # the grid misses (or exceeds) 1-alpha by a small multiple of alpha: the warning rule at its edge
             alpha = float(10 ** sub.uniform(-6, -2.5))
@@ -74,6 +74,16 @@ def _limits(case, ref, rng):
     return lims
 
 
+def build_multimodal(rng, kind):
+    """Two or four modes that SHARE index ranges: side by side along the second variable (same range of the first),
+    or a 2 x 2 arrangement.  The second variable is a user-defined mixture distribution."""
+    m0 = {"fam": "normal", "params": {"mu": 5.0, "sigma": float(rng.uniform(1.0, 1.6))}}
+    if kind == "four":
+        m0 = {"fam": "normalmix", "params": {"w": 0.5, "mu1": 2.0, "mu2": 9.0, "sigma": float(rng.uniform(0.5, 0.8))}}
+    m1 = {"fam": "normalmix", "params": {"w": float(rng.uniform(0.35, 0.65)), "mu1": 2.0, "mu2": float(rng.uniform(9.0, 12.0)), "sigma": float(rng.uniform(0.5, 0.9))}}
+    return {"dims": [m0, m1]}
+
+
 def build_bimodal(rng):
     """A 2-D model whose conditional mean switches between two levels (logistic step): two separated modes."""
     x0 = float(rng.uniform(3, 6))
@@ -102,6 +112,9 @@ def run(case, ctx, which):
     if case["mode"] == "bimodal":
         spec = build_bimodal(rng)
         alpha = float(rng.uniform(0.05, 0.3))
+    if case["mode"] in ("modes-side-by-side", "four-modes"):
+        spec = build_multimodal(rng, "four" if case["mode"] == "four-modes" else "two")
+        alpha = float(rng.uniform(0.03, 0.2))
     model = S.build_virocon(spec)
     ref = S.RefModel(spec)
     d = model.n_dim
@@ -130,7 +143,9 @@ def run(case, ctx, which):
         kw["deltas"] = [d0, float(hi1) / n1]
         ctx.cls("shortfall/alpha", u)
     elif case["mode"] != "default-limits":
-        if case["mode"] == "bimodal":
+        if case["mode"] in ("modes-side-by-side", "four-modes"):
+            lims = [(-3.0, 14.0), (-3.0, 17.0)]
+        elif case["mode"] == "bimodal":
             lims = [(-6.0, 16.0), (-2.0, 20.0)]
         else:
             lims = _limits(case, ref, rng)
@@ -198,6 +213,13 @@ def run(case, ctx, which):
                 except IndexError:
                     ctx.count("hdc.index-error-coarse-grid")
                     return
+                except ValueError as e:
+                    if "Encountered nan in cell averaged" in str(e):
+                        # the first model's grid reaches outside the domain of the second model's dependence
+                        # functions: virocon refuses with a stated reason - a reported refusal, not judged
+                        ctx.count("hdc.history-grid-outside-domain-reported")
+                        return
+                    raise
             warned2 = any(issubclass(w.category, RuntimeWarning) and "1-alpha could not be reached" in str(w.message) for w in rec2)
             obs2 = hdcmon.OBS.get("cumsum", [])
             if not obs2:
@@ -345,7 +367,7 @@ def sorter_cases(tier, seed):
     rng = np.random.default_rng([seed, 150])
     n = 60 if tier == "quick" else 1500
     kinds = ["circle", "ellipse-aniso", "irregular", "clustered", "collinear", "duplicates", "grid-ring", "two-rings"]
-    return [{"kind": "sorter", "pts": kinds[i % len(kinds)], "n": int(rng.choice([3, 5, 10, 40, 150, 400])), "sub": int(rng.integers(1 << 31)), "opt": bool(i % 2)} for i in range(n)]
+    return [{"kind": "sorter", "pts": kinds[i % len(kinds)], "n": int(rng.choice([1, 2, 3, 5, 10, 40, 150, 400])), "sub": int(rng.integers(1 << 31)), "opt": bool(i % 2)} for i in range(n)]
 
 
 def run_sorter(case, ctx):
